@@ -678,18 +678,21 @@ enum cc_stat cc_array_sized_trim_capacity(CC_ArraySized *ar)
     if (ar->size == ar->capacity) {
         return CC_OK;
     }
-    uint8_t *new_buff = ar->mem_calloc(ar->size, ar->data_length);
+    size_t size = ar->size < 1 ? 1 : ar->size;
+
+    if (size == ar->capacity) {
+        return CC_OK;
+    }
+    uint8_t *new_buff = ar->mem_calloc(size, ar->data_length);
 
     if (!new_buff) {
         return CC_ERR_ALLOC;
     }
-    size_t size = ar->size < 1 ? 1 : ar->size;
-
-    memcpy(new_buff, ar->buffer, size * ar->data_length);
+    memcpy(new_buff, ar->buffer, ar->size * ar->data_length);
     ar->mem_free(ar->buffer);
 
     ar->buffer   = new_buff;
-    ar->capacity = ar->size;
+    ar->capacity = size;
 
     return CC_OK;
 }
